@@ -5,7 +5,7 @@
 //   entry split p os mwma fseq fpar mink minn size k  len_0 key.. len_1 key.. ... len_{k-1} key..
 //   entry: 0 parallel_multiway_merge 1 stable_ 2 _sentinels 3 stable_.._sentinels
 //   split: 0 MWMSA_SAMPLING 1 MWMSA_EXACT;  p: num_threads;  os: parallel_multiway_merge_oversampling
-//   mwma : 0 LOSER_TREE 1 LOSER_TREE_COMBINED 2 LOSER_TREE_SENTINEL 3 BUBBLE
+//   mwma : profile * 10 + (0 LOSER_TREE 1 LOSER_TREE_COMBINED 2 LOSER_TREE_SENTINEL 3 BUBBLE); profiles see below
 //   fseq/fpar/mink/minn: the four global switches
 // Elements are (key, seq, pos) triples compared by key only, so stability is observable.  Every input
 // sequence lives in its own heap block followed by one sentinel (key INT_MAX).  The output goes through a
@@ -13,13 +13,14 @@
 // writing thread and bumps a per-position counter; a write outside [0,size) is recorded and dropped.
 //
 // output line:  ret=<r> cur=<c0,c1,..> out=<key:seq:pos,...> win=<start+len,...> w=<verdict> fp=<0|1>
-//   win = maximal runs of positions written by one thread, in position order
+//   win = maximal runs of positions written by one thread, in position order ("?" for the plain-output profiles)
 //   w   = ok | multi@<pos> | missing@<pos> | oob<count>
 //   fp  = 1 iff (sampling) some double-precision sample index differs from the exact integer floor
 #include <atomic>
 #include <climits>
 #include <cstdio>
 #include <cstdlib>
+#include <deque>
 #include <fstream>
 #include <iostream>
 #include <iterator>
@@ -99,27 +100,104 @@ struct LogIt {
 };
 inline LogIt operator+(std::ptrdiff_t d, const LogIt& i) { return i + d; }
 
-using Pair = std::pair<Elem*, Elem*>;
+// ---- API-surface profiles (case field mwma = profile * 10 + MWMA constant) -------------------------------------
+//  0 seqs: std::vector<pair>::iterator, elements: Elem*, output: logging iterator, comparator: key-only less
+//  1 seqs: pair* (raw array),           elements: std::vector<Elem>::iterator, output: Elem* (plain, guard zones)
+//  2 seqs: std::deque<pair>::iterator,  elements: std::deque<Elem>::iterator, output: std::vector<Elem>::iterator,
+//    comparator: key-only GREATER on keys stored negated (descending inputs)
+//  3 as 0 with a stateful, non-default-constructible counting comparator
+//  4 as 0 with comp, mwma, mwmsa AND num_threads defaulted (std::less<Elem>, MWMA_ALGORITHM_DEFAULT, MWMSA_DEFAULT,
+//    std::thread::hardware_concurrency()); the case file must carry exactly these values (see --hw)
+//  5 as 0 with only num_threads defaulted
+//  (element iterators whose difference_type is not std::ptrdiff_t do not compile: the per-thread call hands
+//   std::vector<pair>::iterator to multiway_merge_4_combined, which mixes both difference_types in std::min)
+inline bool operator<(const Elem& a, const Elem& b) { return a.key < b.key; }
+struct ByKeyGreater {
+    bool operator()(const Elem& a, const Elem& b) const { return a.key > b.key; }
+};
+struct CountingLess {
+    std::atomic<long>* calls;   // shared by the merging threads: atomic, relaxed (no synchronisation added)
+    explicit CountingLess(std::atomic<long>* c) : calls(c) {}
+    bool operator()(const Elem& a, const Elem& b) const { calls->fetch_add(1, std::memory_order_relaxed); return a.key < b.key; }
+};
+// defaults: 0 = all arguments explicit, 1 = num_threads defaulted, 2 = comp, mwma, mwmsa, num_threads defaulted
+template <class SeqIt, class OutIt, class Comp, class Size>
+OutIt call_entry(long entry, SeqIt b, SeqIt e, OutIt tgt, Size size, Comp comp, tlx::MultiwayMergeAlgorithm a,
+                 tlx::MultiwayMergeSplittingAlgorithm sp, size_t p, int defaults) {
+    if (defaults == 2) {
+        switch (entry) {
+        case 0: return tlx::parallel_multiway_merge(b, e, tgt, size);
+        case 1: return tlx::stable_parallel_multiway_merge(b, e, tgt, size);
+        case 2: return tlx::parallel_multiway_merge_sentinels(b, e, tgt, size);
+        default: return tlx::stable_parallel_multiway_merge_sentinels(b, e, tgt, size);
+        }
+    }
+    if (defaults == 1) {
+        switch (entry) {
+        case 0: return tlx::parallel_multiway_merge(b, e, tgt, size, comp, a, sp);
+        case 1: return tlx::stable_parallel_multiway_merge(b, e, tgt, size, comp, a, sp);
+        case 2: return tlx::parallel_multiway_merge_sentinels(b, e, tgt, size, comp, a, sp);
+        default: return tlx::stable_parallel_multiway_merge_sentinels(b, e, tgt, size, comp, a, sp);
+        }
+    }
+    switch (entry) {
+    case 0: return tlx::parallel_multiway_merge(b, e, tgt, size, comp, a, sp, p);
+    case 1: return tlx::stable_parallel_multiway_merge(b, e, tgt, size, comp, a, sp, p);
+    case 2: return tlx::parallel_multiway_merge_sentinels(b, e, tgt, size, comp, a, sp, p);
+    default: return tlx::stable_parallel_multiway_merge_sentinels(b, e, tgt, size, comp, a, sp, p);
+    }
+}
 
+struct Outcome {
+    long ret = 0;
+    std::vector<long> cur;
+    bool logged = true;       // windows / exactly-once observable
+    long guard_damage = 0;    // plain outputs: guard zone elements changed
+};
+
+static const long GUARD = 8;
+
+// run with a plain (non-logging) output iterator made by `mk(Elem* base)`
+template <class SeqIt, class OrigVec, class MkOut, class Comp, class Size>
+void run_plain(long entry, SeqIt wb, SeqIt we, const OrigVec& orig, std::vector<Elem>& out, MkOut mk, Size size, Comp comp,
+               tlx::MultiwayMergeAlgorithm a, tlx::MultiwayMergeSplittingAlgorithm sp, size_t p, Outcome& oc) {
+    std::vector<Elem> buf(static_cast<size_t>(size) + 2 * GUARD, Elem{-7, -7, -7});
+    auto tgt = mk(buf, GUARD);
+    auto ret = call_entry(entry, wb, we, tgt, size, comp, a, sp, p, 0);
+    oc.ret = static_cast<long>(ret - tgt);
+    oc.logged = false;
+    for (long i = 0; i < GUARD; ++i) {
+        if (buf[i].seq != -7) ++oc.guard_damage;
+        if (buf[GUARD + size + i].seq != -7) ++oc.guard_damage;
+    }
+    for (long i = 0; i < static_cast<long>(size); ++i) out[i] = buf[GUARD + i];
+    long s = 0;
+    for (SeqIt it = wb; it != we; ++it, ++s) oc.cur.push_back(static_cast<long>(it->first - orig[s].first));
+}
+
+using Pair = std::pair<Elem*, Elem*>;
 int main(int argc, char** argv) {
-    if (argc < 2) { fprintf(stderr, "usage: %s casefile\n", argv[0]); return 2; }
+    if (argc < 2) { fprintf(stderr, "usage: %s casefile | --hw\n", argv[0]); return 2; }
+    if (std::string(argv[1]) == "--hw") { printf("%u\n", std::thread::hardware_concurrency()); return 0; }
     std::ifstream in(argv[1]);
     std::string line;
     while (std::getline(in, line)) {
         if (line.empty() || line[0] == '#') continue;
         std::istringstream is(line);
-        long entry, split, p, os, mwma, fseq, fpar, mink, minn, size, k;
-        if (!(is >> entry >> split >> p >> os >> mwma >> fseq >> fpar >> mink >> minn >> size >> k)) {
+        long entry, split, p, os, mwmaf, fseq, fpar, mink, minn, size, k;
+        if (!(is >> entry >> split >> p >> os >> mwmaf >> fseq >> fpar >> mink >> minn >> size >> k)) {
             puts("BAD-CASE"); fflush(stdout); continue;
         }
+        long profile = mwmaf / 10, mwma = mwmaf % 10;
+        const bool neg = (profile == 2);
         std::vector<std::vector<Elem>*> store;
         std::vector<Pair> seqs;
         long total = 0;
         for (long s = 0; s < k; ++s) {
             long len; is >> len;
             auto* v = new std::vector<Elem>(static_cast<size_t>(len + 1));
-            for (long i = 0; i < len; ++i) { long key; is >> key; (*v)[i] = Elem{static_cast<int>(key), static_cast<int>(s), static_cast<int>(i)}; }
-            (*v)[len] = Elem{INT_MAX, static_cast<int>(s), -1};
+            for (long i = 0; i < len; ++i) { long key; is >> key; (*v)[i] = Elem{static_cast<int>(neg ? -key : key), static_cast<int>(s), static_cast<int>(i)}; }
+            (*v)[len] = Elem{neg ? -INT_MAX : INT_MAX, static_cast<int>(s), -1};
             store.push_back(v);
             seqs.push_back(Pair(v->data(), v->data() + len));
             total += len;
@@ -153,40 +231,73 @@ int main(int argc, char** argv) {
         tlx::parallel_multiway_merge_oversampling = static_cast<size_t>(os);
         auto a = static_cast<tlx::MultiwayMergeAlgorithm>(mwma);
         auto sp = static_cast<tlx::MultiwayMergeSplittingAlgorithm>(split);
-        LogIt tgt{&sh, 0}, ret;
-        std::vector<Pair> work(seqs);
-        switch (entry) {
-        case 0: ret = tlx::parallel_multiway_merge(work.begin(), work.end(), tgt, size, ByKey(), a, sp, static_cast<size_t>(p)); break;
-        case 1: ret = tlx::stable_parallel_multiway_merge(work.begin(), work.end(), tgt, size, ByKey(), a, sp, static_cast<size_t>(p)); break;
-        case 2: ret = tlx::parallel_multiway_merge_sentinels(work.begin(), work.end(), tgt, size, ByKey(), a, sp, static_cast<size_t>(p)); break;
-        default: ret = tlx::stable_parallel_multiway_merge_sentinels(work.begin(), work.end(), tgt, size, ByKey(), a, sp, static_cast<size_t>(p)); break;
+        Outcome oc;
+        LogIt tgt{&sh, 0};
+        std::atomic<long> comp_calls{0};
+        switch (profile) {
+        case 1: {   // raw array of pairs over vector iterators, plain pointer output
+            using EIt = std::vector<Elem>::iterator;
+            std::vector<std::pair<EIt, EIt>> orig;
+            for (long s = 0; s < k; ++s) orig.push_back({store[s]->begin(), store[s]->begin() + (store[s]->size() - 1)});
+            std::vector<std::pair<EIt, EIt>> work(orig);
+            auto mk = [](std::vector<Elem>& b, long g) { return b.data() + g; };
+            run_plain(entry, work.data(), work.data() + k, orig, out, mk, static_cast<std::ptrdiff_t>(size), ByKey(), a, sp, static_cast<size_t>(p), oc);
+            break;
+        }
+        case 2: {   // deques everywhere, vector-iterator output, greater on negated keys
+            using EIt = std::deque<Elem>::iterator;
+            std::vector<std::deque<Elem>> dq(static_cast<size_t>(k));
+            std::vector<std::pair<EIt, EIt>> orig;
+            for (long s = 0; s < k; ++s) { dq[s].assign(store[s]->begin(), store[s]->end()); orig.push_back({dq[s].begin(), dq[s].end() - 1}); }
+            std::deque<std::pair<EIt, EIt>> work(orig.begin(), orig.end());
+            auto mk = [](std::vector<Elem>& b, long g) { return b.begin() + g; };
+            run_plain(entry, work.begin(), work.end(), orig, out, mk, static_cast<std::ptrdiff_t>(size), ByKeyGreater(), a, sp, static_cast<size_t>(p), oc);
+            break;
+        }
+        default: {
+            std::vector<Pair> work(seqs);
+            LogIt ret;
+            if (profile == 3) ret = call_entry(entry, work.begin(), work.end(), tgt, static_cast<std::ptrdiff_t>(size), CountingLess(&comp_calls), a, sp, static_cast<size_t>(p), 0);
+            else ret = call_entry(entry, work.begin(), work.end(), tgt, static_cast<std::ptrdiff_t>(size), ByKey(), a, sp, static_cast<size_t>(p),
+                                  profile == 4 ? 2 : profile == 5 ? 1 : 0);
+            oc.ret = ret - tgt;
+            for (long s = 0; s < k; ++s) oc.cur.push_back(work[s].first - seqs[s].first);
+            break;
+        }
         }
 
         std::ostringstream o;
-        o << "ret=" << (ret - tgt) << " cur=";
-        for (long s = 0; s < k; ++s) o << (s ? "," : "") << (work[s].first - seqs[s].first);
+        o << "ret=" << oc.ret << " cur=";
+        for (long s = 0; s < k; ++s) o << (s ? "," : "") << oc.cur[s];
         o << " out=";
-        for (long i = 0; i < size; ++i) o << (i ? "," : "") << out[i].key << ":" << out[i].seq << ":" << out[i].pos;
+        for (long i = 0; i < size; ++i) o << (i ? "," : "") << (neg ? -out[i].key : out[i].key) << ":" << out[i].seq << ":" << out[i].pos;
         o << " win=";
-        bool firstw = true;
-        for (long i = 0; i < size;) {
-            if (cnt[i].load() == 0) { ++i; continue; }
-            long j = i;
-            while (j < size && cnt[j].load() != 0 && who[j] == who[i]) ++j;
-            o << (firstw ? "" : ",") << i << "+" << (j - i);
-            firstw = false;
-            i = j;
-        }
-        o << " w=";
         std::string verdict = "ok";
-        if (sh.oob.load() != 0) verdict = "oob" + std::to_string(sh.oob.load());
-        else
-            for (long i = 0; i < size; ++i) {
-                int c = cnt[i].load();
-                if (c > 1) { verdict = "multi@" + std::to_string(i); break; }
-                if (c == 0) { verdict = "missing@" + std::to_string(i); break; }
+        if (oc.logged) {
+            bool firstw = true;
+            for (long i = 0; i < size;) {
+                if (cnt[i].load() == 0) { ++i; continue; }
+                long j = i;
+                while (j < size && cnt[j].load() != 0 && who[j] == who[i]) ++j;
+                o << (firstw ? "" : ",") << i << "+" << (j - i);
+                firstw = false;
+                i = j;
             }
-        o << verdict << " fp=" << fp;
+            if (sh.oob.load() != 0) verdict = "oob" + std::to_string(sh.oob.load());
+            else
+                for (long i = 0; i < size; ++i) {
+                    int c = cnt[i].load();
+                    if (c > 1) { verdict = "multi@" + std::to_string(i); break; }
+                    if (c == 0) { verdict = "missing@" + std::to_string(i); break; }
+                }
+        } else {
+            o << "?";
+            if (oc.guard_damage != 0) verdict = "oob" + std::to_string(oc.guard_damage);
+            else
+                for (long i = 0; i < size; ++i)
+                    if (out[i].seq == -7) { verdict = "missing@" + std::to_string(i); break; }
+        }
+        o << " w=" << verdict << " fp=" << fp;
         puts(o.str().c_str());
         fflush(stdout);
         for (auto* v : store) delete v;
